@@ -226,7 +226,7 @@ def run(ctx, c, pure_diffusion):
     diffusing = any(k > 0 for (i, j, _, _), row in zip(model.slots, model.kslot) if i != j for k in row)
     system = sut_call("build_system", B.build_system, spec, c["route"])
     from vlib.ratelaw import tame_dt
-    dt = tame_dt(model, flags)
+    dt = tame_dt(model, flags) * c.get("coarse", 1.0)
     kw = {}
     if c.get("units"):
         kw["units_system"] = B.US(c["units"])
@@ -254,10 +254,12 @@ def run(ctx, c, pure_diffusion):
     nsamp = len(d) // m
     changed = nsamp >= 2 and d[:m] != d[(nsamp - 1) * m:nsamp * m]
     multi = any(sum(1 for v in cv if v != 0) >= 2 for cv in laws)
-    ctx.note(c, (multi or (pure_diffusion and diffusing)) and changed and nsamp >= 10 and bool(laws),
+    overshoot = any(v < 0 for v in d)
+    ctx.note(c, (multi or (pure_diffusion and diffusing)) and changed and (nsamp >= 10 or (c.get("coarse") and overshoot)) and bool(laws),
              ["engine:" + kind, "space:" + spec["space"]["type"], "laws:%d" % min(len(laws), 4)] +
              (["multi-species-law"] if multi else []) + (["chemostats"] if flagged_species else []) +
-             (["diffusing"] if diffusing else []) + (["changed"] if changed else ["static"]))
+             (["diffusing"] if diffusing else []) + (["changed"] if changed else ["static"]) +
+             (["coarse-step:overshoot-below-zero" if overshoot else "coarse-step:no-overshoot"] if c.get("coarse") else []))
     if len(d) != nsamp * m or nsamp < 1:
         raise Violation("trajectory has %d values for state size %d" % (len(d), m), key="shape")
     for cv in laws:
@@ -291,6 +293,29 @@ def check_diffusion(ctx, c):
     run(ctx, c, True)
 
 
+# ---- coarse time steps (deterministic engine) -----------------------------------------------------------------
+# The property quantifies over all time steps. An explicit Euler step that is far too coarse overshoots (amounts go
+# negative, then grow) but it is still linear in the fluxes, so every conservation law holds to rounding relative to the
+# magnitudes involved. Few steps only: the run must not reach overflow.
+
+@st.composite
+def coarse_case(draw):
+    c = draw(case(False)) if draw(st.booleans()) else draw(case(True))
+    c["engine"] = "euler"
+    c["steps"] = draw(st.integers(1, 3))
+    c["coarse"] = draw(st.sampled_from([300.0, 3000.0, 3e4, 3e5]))
+    c["reuse"] = False
+    return c
+
+
+def strat_coarse(ctx):
+    return coarse_case()
+
+
+def check_coarse(ctx, c):
+    run(ctx, c, not c["sys"]["reactions"])
+
+
 def strat_laws(ctx):
     return case(False)
 
@@ -308,5 +333,6 @@ RULE = RULE + " " + ('Since seeded round 4 one third of the runs use a drawn uni
 FACETS = [
     Facet("laws", check_laws, strategy=strat_laws, examples=(1800, 40000), shards=(12, 16), setup=sim.setup_plain),
     Facet("laws_around_chemostat", check_laws, strategy=strat_around, examples=(900, 16000), shards=(8, 16), setup=sim.setup_plain),
+    Facet("coarse_steps", check_coarse, strategy=strat_coarse, examples=(400, 8000), shards=(4, 16), setup=sim.setup_plain),
     Facet("diffusion", check_diffusion, strategy=strat_diffusion, examples=(500, 15000), shards=(4, 16), setup=sim.setup_plain),
 ]
